@@ -8,7 +8,8 @@
 //! States = distinct context contents (the full context is the state key, nothing is
 //! hidden), explored breadth-first from the empty context through ALL 12 pool
 //! transactions in every state, depth 4 (quick: every ordered history of length ≤ 4,
-//! 1 + 12 + 144 + 1,728 + 20,736 histories) / depth 6 (thorough: 3,257,437). Histories that reach
+//! 1 + 12 + 144 + 1,728 + 20,736 histories) / depth 12 (thorough; the frontier becomes empty
+//! at depth 9, i.e. the COMPLETE reachable context set of the pool is explored). Histories that reach
 //! the same context are merged (the transition function is deterministic in
 //! (context, tx)); states and executed transitions are counted as such.
 //!
@@ -1061,7 +1062,7 @@ fn explore(ctx: &Ctx) {
     ctx.rule(
         "breadth-first exploration of the compression context: from every distinct context reached, each of the 12 \
          pool transactions is registered, compressed, postcard-round-tripped and decompressed against that context \
-         (depth 4 quick / 6 thorough; contexts reached by several histories are merged, the transition is a \
+         (depth 4 quick / up to 12 = until no new context appears, thorough; contexts reached by several histories are merged, the transition is a \
          deterministic function of (context, transaction)); plus RegistryKey::next on all 2^24 keys. A transition \
          is non-trivial when compression, the postcard round trip and decompression all succeeded and produced a \
          transaction; distinct = distinct (context, transaction) pairs (+3 key classes)",
@@ -1091,14 +1092,24 @@ fn explore(ctx: &Ctx) {
         json!({"tables": TABLES, "first_key_per_table": TABLES.iter().zip(START_OFFSETS).map(|(t, o)| (t.to_string(), format!("{:#x}", RegistryKey::MAX_WRITABLE.as_u32() - o))).collect::<BTreeMap<_, _>>(),
                "MAX_WRITABLE": format!("{:#x}", RegistryKey::MAX_WRITABLE.as_u32()), "DEFAULT_VALUE": format!("{:#x}", RegistryKey::DEFAULT_VALUE.as_u32())}),
     );
-    let depth = ctx.pick(4usize, 6usize);
+    let depth = ctx.pick(4usize, 12usize);
     let model = Compression { pool };
+    if std::env::var("C07_TIME").is_ok() {
+        let t0 = std::time::Instant::now();
+        let mut c = RegCtx::new();
+        for i in 0..1200 {
+            c = transition(&c, &model.pool[i % 12]).ok().map(|o| o.ctx).unwrap_or(c);
+        }
+        eprintln!("1200 sequential transitions: {:?}", t0.elapsed());
+    }
     let stats = bfs(&model, depth, u64::MAX, ctx);
+    let bfs_wall = ctx.elapsed();
     let histories: u64 = (0..=depth as u32).map(|d| 12u64.pow(d)).sum();
     ctx.set(
         "bfs",
         json!({"depth": depth, "completed_depth": stats.completed_depth, "distinct_contexts": stats.states, "transitions": stats.transitions,
-               "contexts_per_depth": stats.per_depth, "ordered_histories_covered": histories, "capped": stats.capped}),
+               "contexts_per_depth": stats.per_depth, "ordered_histories_covered": histories, "capped": stats.capped, "wall_s": bfs_wall,
+               "reachable_context_set_complete": stats.per_depth.last() == Some(&0)}),
     );
     if ctx.sample_count() == 0 {
         // always leave at least one written-out transition
